@@ -602,7 +602,20 @@ func incrOne(tr *tracer.T, cfg *incrIn, pi int, path []map[string]interface{}, h
 			steps++
 		}
 		// the stream is idle now: everything must reach the target within two ticker periods (+ slack)
-		time.Sleep(1400 * time.Millisecond)
+		// (at least 1.4 s, then until the target has not changed for 1.2 s - more than two ticker periods - or 6 s are over: a loaded machine
+		// may deliver a tick late, a flush that never comes still ends the wait)
+		t0 := time.Now()
+		lastN, stableSince := -1, time.Now()
+		for time.Since(t0) < 6*time.Second {
+			applied, _, _, _, _, _ := incrObserve(srv, cfg.Cfg.Resume, ends, 2)
+			if n := len(applied); n != lastN {
+				lastN, stableSince = n, time.Now()
+			}
+			if time.Since(t0) >= 1400*time.Millisecond && time.Since(stableSince) >= 1200*time.Millisecond {
+				break
+			}
+			time.Sleep(100 * time.Millisecond)
+		}
 		snap(len(path), "IdleAfterTwoTicks", true)
 		return
 	}
